@@ -10,7 +10,7 @@
    they are exercised by the correspondence runs (incl. SIGKILLed workers), not
    proved. *)
 From stdpp Require Import gmap.
-From F2G Require Import gen.Consts Model.Persist Proofs.Persist Drv.Persist.
+From F2G Require Import gen.Consts Model.Persist Proofs.Persist Drv.Persist Proofs.PersistDrv.
 
 Section C14.
   Context {value bytes : Type}.
@@ -132,6 +132,12 @@ Print Assumptions C14_instance.
 Theorem C14_observer : forall c, holdsb c = true <-> Holds c.
 Proof. exact holdsb_spec. Qed.
 Print Assumptions C14_observer.
+
+(* whenever the implementation's outputs agree with the model of the code (for one of
+   the histories the crash relation allows), the observer accepts them *)
+Theorem C14_model_agrees : forall c, mismatch c = false -> holdsb c = true.
+Proof. exact agree_holds. Qed.
+Print Assumptions C14_model_agrees.
 
 (* non-vacuity: a history with two fans, both kinds, a negative key, -0 (bits
    2^63), an overwrite, a delete, a rejected NaN save, undecodable bytes, a
